@@ -866,3 +866,582 @@ Proof.
     rewrite (obs_str connack_map false NoSub ps a2 Hnd Hok Hdup 22 (M F_authData)) by (reflexivity || discriminate).
     reflexivity.
 Qed.
+
+(* ------------------------------------------------------------------ *)
+(* PUBACK, PUBREC, PUBREL, PUBCOMP *)
+Lemma table_ack t : In t [4; 5; 6; 7; 9; 11] -> table_ok t ack_map false NoSub = true.
+Proof. intros H. cbn [In] in H. destruct H as [<-|[<-|[<-|[<-|[<-|[<-|[]]]]]]]; vm_compute; reflexivity. Qed.
+
+Lemma ack_map_lookup_other r : r <> M F_reasonString ->
+  forall id r0 w0, lookup_prop ack_map id = Some (r0, w0) -> r0 <> r.
+Proof.
+  intros Hr id r0 w0 Hl. apply lookup_in_map in Hl. unfold ack_map in Hl. cbn [In] in Hl.
+  destruct Hl as [Hl|[]]. injection Hl as _ <- _. intros E. apply Hr. symmetry. exact E.
+Qed.
+
+Definition ack_frame_ok (form rc : N) (ps : list aprop) (t : N) : Prop :=
+  match form with
+  | 2 => rc = 0 /\ ps = []
+  | 3 => ps = []
+  | 4 => sprops_ok t ps /\ len (e_props_raw ps) < 268435456
+  | _ => False
+  end.
+
+Theorem accept_ack k pid form rc ps : is_ack k = true ->
+  pid < 65536 -> rc < 256 -> ack_frame_ok form rc ps (kind_nibble k) ->
+  accepts {| af_type := kind_nibble k; af_flags := ctor_fixed k - kind_nibble k * 16;
+             af_body := BAck pid form rc ps |}.
+Proof.
+  intros Hk Hpid Hrc Hform.
+  assert (Hb0 : kind_nibble k * 16 + (ctor_fixed k - kind_nibble k * 16) = ctor_fixed k)
+    by (destruct k; try discriminate Hk; reflexivity).
+  assert (Hdec_of : dec_of k = dec_ack) by (destruct k; try discriminate; reflexivity).
+  set (fresh := setf (M F_fixed) (VN (ctor_fixed k)) zero_pkt).
+  assert (Hfresh : fresh_pkt (b2n (n2b (ctor_fixed k))) = (k, fresh)) by (apply fresh_ack; exact Hk).
+  set (a1 := setf (M F_packetID) (canon U16 (VN pid)) fresh).
+  set (a2 := setf (M F_reasonCode) (canon U8 (VN rc)) a1).
+  assert (Hsnap : forall q, getf (M F_packetID) q = VN pid -> getf (M F_reasonCode) q = VN rc ->
+            OS (valS (getf (M F_reasonString) q)) = pstr 31 ps -> uprops q = pairs ps ->
+            snapshot k q = frame_obs {| af_type := kind_nibble k; af_flags := ctor_fixed k - kind_nibble k * 16;
+                                        af_body := BAck pid form rc ps |}).
+  { intros q E1 E2 E3 E4. unfold frame_obs. cbn [af_body].
+    destruct k; try discriminate Hk; unfold snapshot, oN, oS, getN, getS; rewrite E1, E2, E3, E4, oprops_pairs; reflexivity. }
+  unfold ack_frame_ok in Hform.
+  assert (Hcase : (form = 2 /\ rc = 0 /\ ps = []) \/ (form = 3 /\ ps = []) \/
+                  (form = 4 /\ sprops_ok (kind_nibble k) ps /\ len (e_props_raw ps) < 268435456)).
+  { destruct form as [|[[[]|[]|]|[[]|[]|]|]]; try contradiction; tauto. }
+  destruct Hcase as [[-> [-> ->]]|[[-> ->]|[-> [Hps HR]]]].
+  - (* packet identifier only *)
+    destruct (dget_at (M F_packetID) U16 (VN pid) fresh (e_u16 pid) 0 [] 0) as [D1 H1];
+      try discriminate; try exact I; try assumption.
+    { rewrite app_nil_r. apply at_pos_0. }
+    fold a1 in D1.
+    apply (accepts_intro _ k fresh a1); cbn [af_type af_flags af_body e_body N.eqb Pos.eqb]; rewrite ?Hb0, ?app_nil_r.
+    + exact Hfresh.
+    + unfold e_u16. eapply unmarshal_of_run. rewrite Hdec_of. unfold dec_ack.
+      change [n2b (pid / 256); n2b pid] with (e_u16 pid). rewrite (run_dec_cons _ _ _ _ D1).
+      cbn [run_dec]. rewrite dif_step. reflexivity.
+    + reflexivity.
+    + apply Hsnap; reflexivity.
+  - (* reason code, no property length *)
+    destruct (dget_at (M F_packetID) U16 (VN pid) fresh (e_u16 pid ++ e_u8 rc) 0 (e_u8 rc) 0) as [D1 H1];
+      try discriminate; try exact I; try assumption.
+    { apply at_pos_0. }
+    fold a1 in D1.
+    destruct (dget_at (M F_reasonCode) U8 (VN rc) a1 (e_u16 pid ++ e_u8 rc) (0 + length (encode U16 (VN pid))) [] 1)
+      as [D2 H2]; try discriminate; try exact I; try assumption.
+    fold a2 in D2.
+    pose proof (dgetany_end ack_map false NoSub a2 _ _ 2 H2) as D3.
+    apply (accepts_intro _ k fresh a2); cbn [af_type af_flags af_body e_body N.eqb Pos.eqb]; rewrite ?Hb0, ?app_nil_r.
+    + exact Hfresh.
+    + unfold e_u16, e_u8. cbn [app]. eapply unmarshal_of_run. rewrite Hdec_of. unfold dec_ack.
+      change [n2b (pid / 256); n2b pid; n2b rc] with (e_u16 pid ++ e_u8 rc). rewrite (run_dec_cons _ _ _ _ D1).
+      cbn [run_dec]. rewrite dif_step.
+      change (eval_cond (CDataLenGt 2) _ _) with true. cbv iota.
+      rewrite (run_dec_cons _ _ _ _ D2), (run_dec_cons _ _ _ _ D3). reflexivity.
+    + reflexivity.
+    + apply Hsnap; reflexivity.
+  - (* reason code and properties *)
+    assert (Ht : table_ok (kind_nibble k) ack_map false NoSub = true)
+      by (apply table_ack; destruct k; try discriminate Hk; cbn; tauto).
+    pose proof (sprops_prop_ok _ ack_map false NoSub ps Ht Hps) as Hok.
+    pose proof (sprops_keyed _ ps Hps) as Hdup.
+    set (body := e_u16 pid ++ e_u8 rc ++ e_props ps).
+    destruct (dget_at (M F_packetID) U16 (VN pid) fresh body 0 (e_u8 rc ++ e_props ps) 0) as [D1 H1];
+      try discriminate; try exact I; try assumption.
+    { apply at_pos_0. }
+    fold a1 in D1.
+    destruct (dget_at (M F_reasonCode) U8 (VN rc) a1 body (0 + length (encode U16 (VN pid))) (e_props ps) 1)
+      as [D2 H2]; try discriminate; try exact I; try assumption.
+    fold a2 in D2.
+    destruct (dgetany_spec_at ack_map false NoSub ps a2 body
+                (0 + length (encode U16 (VN pid)) + length (encode U8 (VN rc))) [] 2)
+      as [st [D3 H3]]; try assumption; try reflexivity; try discriminate.
+    { intros ap _ _ r w Hl _. apply lookup_in_map in Hl. unfold ack_map in Hl. cbn [In] in Hl.
+      destruct Hl as [Hl|[]]. injection Hl as _ <- _. reflexivity. }
+    { rewrite app_nil_r. exact H2. }
+    set (p' := apply_props ack_map false NoSub ps a2) in *.
+    apply (accepts_intro _ k fresh p'); cbn [af_type af_flags af_body e_body N.eqb Pos.eqb]; rewrite ?Hb0.
+    + exact Hfresh.
+    + fold body. assert (Hne : body <> []) by (unfold body, e_u16; cbn [app]; discriminate).
+      destruct body as [|b0 body0] eqn:Eb; [congruence|]. rewrite <- Eb in *.
+      eapply unmarshal_of_run. rewrite Hdec_of. unfold dec_ack. rewrite (run_dec_cons _ _ _ _ D1).
+      cbn [run_dec]. rewrite dif_step.
+      assert (Ec : eval_cond (CDataLenGt 2) (dp (mk_state a1 body (0 + length (encode U16 (VN pid))) 1))
+                             (env_of (mk_state a1 body (0 + length (encode U16 (VN pid))) 1)) = true).
+      { cbn [eval_cond env_of ce_len mk_state ddata]. apply Nat.ltb_lt. rewrite Eb. rewrite <- Eb. unfold body at 1.
+        rewrite !app_length. unfold e_props. rewrite app_length.
+        assert (0 < length (e_var (len (e_props_raw ps))))%nat.
+        { rewrite e_var_enc_vb by exact HR. apply (encode_pos Vb (VN _)). discriminate. }
+        cbn [e_u16 e_u8 length]. lia. }
+      rewrite Ec. rewrite (run_dec_cons _ _ _ _ D2), (run_dec_cons _ _ _ _ D3). reflexivity.
+    + reflexivity.
+    + assert (Hnd : nodup_refs ack_map = true) by apply ack_map_ok.
+      apply Hsnap.
+      * unfold p'. rewrite apply_props_getf_other; [reflexivity|apply ack_map_lookup_other; discriminate].
+      * unfold p'. rewrite apply_props_getf_other; [reflexivity|apply ack_map_lookup_other; discriminate].
+      * unfold p'. apply (obs_str ack_map false NoSub ps a2 Hnd Hok Hdup 31 (M F_reasonString)); reflexivity || discriminate.
+      * unfold p'. rewrite uprops_apply_props. reflexivity.
+Qed.
+
+(* ------------------------------------------------------------------ *)
+(* DISCONNECT and AUTH *)
+Lemma table_auth : table_ok 15 auth_map false NoSub = true.
+Proof. vm_compute. reflexivity. Qed.
+
+(* DISCONNECT: the library knows only user properties there (known finding
+   D13); frames carrying session expiry, reason string or server reference
+   are outside this theorem *)
+Lemma disc_props_ok ps : sprops_ok 14 ps -> Forall (fun ap => ap_id ap = 38) ps ->
+  Forall (prop_ok [] false NoSub) ps.
+Proof.
+  intros [Hok _] H38. apply Forall_forall. intros ap Hin. rewrite Forall_forall in Hok, H38.
+  destruct (Hok ap Hin) as [_ [Hty [Hpv _]]]. specialize (H38 ap Hin). unfold prop_ok.
+  rewrite H38 in Hty. destruct (ap_val ap); try discriminate Hty. split; [exact H38|exact Hpv].
+Qed.
+
+Definition disc_frame_ok (t form rc : N) (ps : list aprop) : Prop :=
+  match form with
+  | 0 => rc = 0 /\ ps = []
+  | 1 => t = 14 /\ ps = []
+  | 2 => sprops_ok t ps /\ len (e_props_raw ps) < 268435456 /\ (t = 14 -> Forall (fun ap => ap_id ap = 38) ps)
+  | _ => False
+  end.
+
+Section DiscAuth.
+  Variable k : kind.
+  Variable m : list entry.
+  Hypothesis Hdec_of : dec_of k = [DGet (M F_reasonCode) U8; DGetAny m false NoSub].
+  Hypothesis Hfresh : fresh_pkt (b2n (n2b (ctor_fixed k))) = (k, setf (M F_fixed) (VN (ctor_fixed k)) zero_pkt).
+  Hypothesis Hnd : nodup_refs m = true.
+  Hypothesis H38 : lookup_prop m UserProperty = None.
+  Hypothesis Hbin0 : forall id r w, lookup_prop m id = Some (r, w) ->
+                     r <> M F_reasonCode /\ r <> M F_fixed /\ match r with M _ => True | W _ => False end.
+
+  Lemma disc_decode form rc ps :
+    rc < 256 ->
+    match form with
+    | 0 => rc = 0 /\ ps = []
+    | 1 => ps = []
+    | 2 => Forall (prop_ok m false NoSub) ps /\ NoDup (keyed_ids ps) /\ len (e_props_raw ps) < 268435456
+    | _ => False
+    end ->
+    let body := e_body (BDisc form rc ps) in
+    let fresh := setf (M F_fixed) (VN (ctor_fixed k)) zero_pkt in
+    exists p', match body with [] => p' = fresh | _ => unmarshal k fresh body = UOk p' end
+      /\ getf (M F_reasonCode) p' = VN rc /\ uprops p' = pairs ps
+      /\ (forall r, r <> M F_reasonCode -> r <> M F_fixed -> match r with M _ => True | W _ => False end ->
+            getf r p' = getf r (apply_props m false NoSub ps zero_pkt)).
+  Proof.
+    intros Hrc Hform body fresh.
+    set (a1 := setf (M F_reasonCode) (canon U8 (VN rc)) fresh).
+    assert (Hzero : forall r, r <> M F_reasonCode -> r <> M F_fixed -> match r with M _ => True | W _ => False end ->
+               getf r a1 = VN 0).
+    { intros r H1 H2 H3. unfold a1, fresh. rewrite !getf_setf.
+      destruct (fref_eqb r (M F_reasonCode)) eqn:E1; [apply fref_eqb_true in E1; contradiction|].
+      destruct (fref_eqb r (M F_fixed)) eqn:E2; [apply fref_eqb_true in E2; contradiction|].
+      destruct r; [reflexivity|contradiction]. }
+    assert (Hcase : (form = 0 /\ rc = 0 /\ ps = []) \/ (form = 1 /\ ps = []) \/
+                    (form = 2 /\ Forall (prop_ok m false NoSub) ps /\ NoDup (keyed_ids ps)
+                     /\ len (e_props_raw ps) < 268435456)).
+    { destruct form as [|[[]|[]|]]; try contradiction; tauto. }
+    destruct Hcase as [[-> [-> ->]]|[[-> ->]|[-> [Hok [Hdup HR]]]]].
+    - exists fresh. unfold body. cbn [e_body N.eqb]. repeat split; try reflexivity.
+      intros r H1 H2 H3. cbn [apply_props fold_left]. unfold fresh. rewrite getf_setf_other; [reflexivity|].
+      destruct (fref_eqb r (M F_fixed)) eqn:E; [apply fref_eqb_true in E; contradiction|reflexivity].
+    - exists a1. unfold body. cbn [e_body N.eqb Pos.eqb]. rewrite app_nil_r. split; [|split; [reflexivity|split; [reflexivity|]]].
+      + unfold e_u8.
+        destruct (dget_at (M F_reasonCode) U8 (VN rc) fresh [n2b rc] 0 [] 0) as [D1 H1];
+          try discriminate; try exact I; try assumption.
+        { apply at_pos_0. }
+        fold a1 in D1. pose proof (dgetany_end m false NoSub a1 _ _ 1 H1) as D2.
+        eapply unmarshal_of_run. rewrite Hdec_of. rewrite (run_dec_cons _ _ _ _ D1), (run_dec_cons _ _ _ _ D2). reflexivity.
+      + intros r H1 H2 H3. cbn [apply_props fold_left]. rewrite (Hzero r H1 H2 H3). destruct r; reflexivity.
+    - set (b := e_u8 rc ++ e_props ps).
+      destruct (dget_at (M F_reasonCode) U8 (VN rc) fresh b 0 (e_props ps) 0) as [D1 H1];
+        try discriminate; try exact I; try assumption.
+      { apply at_pos_0. }
+      fold a1 in D1.
+      destruct (dgetany_spec_at m false NoSub ps a1 b (0 + length (encode U8 (VN rc))) [] 1)
+        as [st [D2 H2]]; try assumption; try discriminate.
+      { intros ap _ _ r w Hl _. destruct (Hbin0 _ _ _ Hl) as [G1 [G2 G3]]. rewrite (Hzero r G1 G2 G3). reflexivity. }
+      { rewrite app_nil_r. exact H1. }
+      exists (apply_props m false NoSub ps a1). unfold body. cbn [e_body N.eqb Pos.eqb]. fold b.
+      split; [|split; [|split]].
+      + assert (Hne : b <> []) by (unfold b, e_u8; cbn [app]; discriminate).
+        destruct b as [|b0 b1] eqn:Eb; [congruence|]. rewrite <- Eb in *.
+        eapply unmarshal_of_run. rewrite Hdec_of. rewrite (run_dec_cons _ _ _ _ D1), (run_dec_cons _ _ _ _ D2). reflexivity.
+      + rewrite apply_props_getf_other; [reflexivity|].
+        intros id r0 w0 Hl. destruct (Hbin0 _ _ _ Hl) as [G1 _]. exact G1.
+      + rewrite uprops_apply_props. reflexivity.
+      + intros r H1' H2' H3'.
+        (* the same fold from two packets that agree on r *)
+        assert (G : forall l q1 q2, getf r q1 = getf r q2 ->
+                      getf r (apply_props m false NoSub l q1) = getf r (apply_props m false NoSub l q2)).
+        { induction l as [|ap l IH]; intros q1 q2 E; [exact E|]. cbn [apply_props fold_left].
+          apply IH. unfold apply_prop. destruct (ap_val ap); try (rewrite !getf_append_ups; exact E);
+            (destruct (ap_id ap =? 11); [exact E|];
+             destruct (lookup_prop m (ap_id ap)) as [[r0 w0]|]; [|exact E]; rewrite !getf_setf;
+             destruct (fref_eqb r r0); [reflexivity|exact E]). }
+        apply G. rewrite (Hzero r H1' H2' H3'). destruct r; reflexivity.
+  Qed.
+End DiscAuth.
+
+Lemma disc_form_cases t form rc ps : disc_frame_ok t form rc ps ->
+  (form = 0 /\ rc = 0 /\ ps = []) \/ (form = 1 /\ t = 14 /\ ps = []) \/
+  (form = 2 /\ sprops_ok t ps /\ len (e_props_raw ps) < 268435456
+   /\ (t = 14 -> Forall (fun ap => ap_id ap = 38) ps)).
+Proof.
+  unfold disc_frame_ok. destruct form as [|p]; [intros H; left; tauto|].
+  destruct p as [p|p|]; [destruct p; contradiction| |intros H; right; left; tauto].
+  destruct p as [p|p|]; try contradiction. intros H. right. right. tauto.
+Qed.
+
+Theorem accept_disconnect form rc ps : rc < 256 -> disc_frame_ok 14 form rc ps ->
+  accepts {| af_type := 14; af_flags := 0; af_body := BDisc form rc ps |}.
+Proof.
+  intros Hrc Hform.
+  destruct (disc_decode KDisconnect [] eq_refl eq_refl eq_refl) with (form := form) (rc := rc) (ps := ps)
+    as [p' [Hd [Erc [Eu _]]]]; try assumption.
+  { intros id r w Hl. discriminate Hl. }
+  { destruct (disc_form_cases _ _ _ _ Hform) as [[-> [E1 E2]]|[[-> [_ E2]]|[-> [Hps [HR H38]]]]].
+    - split; assumption.
+    - exact E2.
+    - split; [apply disc_props_ok; [exact Hps|apply H38; reflexivity]|].
+      split; [apply (sprops_keyed 14); exact Hps|exact HR]. }
+  apply (accepts_intro _ KDisconnect (setf (M F_fixed) (VN (ctor_fixed KDisconnect)) zero_pkt) p');
+    [reflexivity|exact Hd|reflexivity|].
+  unfold snapshot, frame_obs. cbn [af_body af_type N.eqb Pos.eqb]. unfold oN, getN.
+  rewrite Erc, Eu, oprops_pairs. reflexivity.
+Qed.
+
+Theorem accept_auth form rc ps : rc < 256 -> disc_frame_ok 15 form rc ps ->
+  accepts {| af_type := 15; af_flags := 0; af_body := BDisc form rc ps |}.
+Proof.
+  intros Hrc Hform.
+  assert (Hnd : nodup_refs auth_map = true) by apply auth_map_ok.
+  assert (Hform' : match form with
+    | 0 => rc = 0 /\ ps = []
+    | 1 => ps = []
+    | 2 => Forall (prop_ok auth_map false NoSub) ps /\ NoDup (keyed_ids ps) /\ len (e_props_raw ps) < 268435456
+    | _ => False
+    end).
+  { destruct (disc_form_cases _ _ _ _ Hform) as [[-> [E1 E2]]|[[-> [E _]]|[-> [Hps [HR _]]]]].
+    - split; assumption.
+    - discriminate E.
+    - split; [apply (sprops_prop_ok 15); [exact table_auth|exact Hps]|].
+      split; [apply (sprops_keyed 15); exact Hps|exact HR]. }
+  destruct (disc_decode KAuth auth_map eq_refl Hnd eq_refl) with (form := form) (rc := rc) (ps := ps)
+    as [p' [Hd [Erc [Eu Hother]]]]; try assumption.
+  { intros id r w Hl. apply lookup_in_map in Hl. unfold auth_map in Hl. cbn [In] in Hl.
+    repeat (destruct Hl as [Hl|Hl]; [injection Hl as _ <- _; repeat split; discriminate|]). contradiction. }
+  apply (accepts_intro _ KAuth (setf (M F_fixed) (VN (ctor_fixed KAuth)) zero_pkt) p');
+    [reflexivity|exact Hd|reflexivity|].
+  unfold snapshot, frame_obs. cbn [af_body af_type N.eqb Pos.eqb]. unfold oN, oS, getN, getS.
+  rewrite Erc, Eu, oprops_pairs.
+  rewrite !Hother by (discriminate || exact I).
+  (* the three strings: by the form *)
+  assert (Hobs : forall id f, lookup_prop auth_map id = Some (M f, Bin) -> id <> 11 -> id <> 38 ->
+            OS (valS (getf (M f) (apply_props auth_map false NoSub ps zero_pkt))) = pstr id ps).
+  { intros id f Hl H11 H38'.
+    destruct (disc_form_cases _ _ _ _ Hform) as [[-> [E1 ->]]|[[-> [E _]]|[-> [Hps [HR _]]]]].
+    - reflexivity.
+    - discriminate E.
+    - destruct Hform' as [Hok [Hdup _]].
+      apply (obs_str auth_map false NoSub ps zero_pkt Hnd Hok Hdup id (M f) Hl H11 H38'). reflexivity. }
+  rewrite (Hobs 31 F_reasonString eq_refl) by discriminate.
+  rewrite (Hobs 21 F_authMethod eq_refl) by discriminate.
+  rewrite (Hobs 22 F_authData eq_refl) by discriminate.
+  reflexivity.
+Qed.
+
+(* ------------------------------------------------------------------ *)
+(* SUBACK, UNSUBACK *)
+Theorem accept_suback k pid ps codes : is_suback k = true ->
+  pid < 65536 -> sprops_ok (kind_nibble k) ps -> len (e_props_raw ps) < 268435456 ->
+  Forall (fun n => n < 256) codes ->
+  accepts {| af_type := kind_nibble k; af_flags := 0; af_body := BSuback pid ps codes |}.
+Proof.
+  intros Hk Hpid Hps HR Hcodes.
+  assert (Hb0 : kind_nibble k * 16 + 0 = ctor_fixed k) by (destruct k; try discriminate Hk; reflexivity).
+  assert (Hdec_of : dec_of k = dec_suback) by (destruct k; try discriminate; reflexivity).
+  set (fresh := setf (M F_fixed) (VN (ctor_fixed k)) zero_pkt).
+  assert (Hfresh : fresh_pkt (b2n (n2b (ctor_fixed k))) = (k, fresh))
+    by (apply fresh_plain; intros ->; discriminate).
+  assert (Ht : table_ok (kind_nibble k) ack_map false NoSub = true)
+    by (apply table_ack; destruct k; try discriminate Hk; cbn; tauto).
+  pose proof (sprops_prop_ok _ ack_map false NoSub ps Ht Hps) as Hok.
+  pose proof (sprops_keyed _ ps Hps) as Hdup.
+  set (a1 := setf (M F_packetID) (canon U16 (VN pid)) fresh).
+  set (RC := concat (map e_u8 codes)).
+  set (body := e_u16 pid ++ e_props ps ++ RC).
+  destruct (dget_at (M F_packetID) U16 (VN pid) fresh body 0 (e_props ps ++ RC) 0) as [D1 H1];
+    try discriminate; try exact I; try assumption.
+  { apply at_pos_0. }
+  fold a1 in D1.
+  destruct (dgetany_spec_at ack_map false NoSub ps a1 body (0 + length (encode U16 (VN pid))) RC 1)
+    as [st [D2 H2]]; try assumption; try reflexivity; try discriminate.
+  { intros ap _ _ r w Hl _. apply lookup_in_map in Hl. unfold ack_map in Hl. cbn [In] in Hl.
+    destruct Hl as [Hl|[]]. injection Hl as _ <- _. reflexivity. }
+  set (a2 := apply_props ack_map false NoSub ps a1) in *.
+  pose proof (dreasoncodes_at codes a2 body _ st Hcodes H2) as D3.
+  set (p' := set_rcodes a2 codes) in *.
+  assert (Hnd : nodup_refs ack_map = true) by apply ack_map_ok.
+  apply (accepts_intro _ k fresh p'); cbn [af_type af_flags af_body e_body]; rewrite ?Hb0.
+  - exact Hfresh.
+  - fold RC body. assert (Hne : body <> []) by (unfold body, e_u16; cbn [app]; discriminate).
+    destruct body as [|b0 body0] eqn:Eb; [congruence|]. rewrite <- Eb in *.
+    eapply unmarshal_of_run. rewrite Hdec_of. unfold dec_suback.
+    rewrite (run_dec_cons _ _ _ _ D1), (run_dec_cons _ _ _ _ D2), (run_dec_cons _ _ _ _ D3). reflexivity.
+  - reflexivity.
+  - assert (E1 : getf (M F_packetID) p' = VN pid).
+    { unfold p'. change (getf (M F_packetID) (set_rcodes a2 codes)) with (getf (M F_packetID) a2).
+      unfold a2. rewrite apply_props_getf_other; [reflexivity|apply ack_map_lookup_other; discriminate]. }
+    assert (E2 : OS (valS (getf (M F_reasonString) p')) = pstr 31 ps).
+    { unfold p'. change (getf (M F_reasonString) (set_rcodes a2 codes)) with (getf (M F_reasonString) a2).
+      unfold a2. apply (obs_str ack_map false NoSub ps a1 Hnd Hok Hdup 31 (M F_reasonString)); reflexivity || discriminate. }
+    assert (E3 : uprops p' = pairs ps).
+    { unfold p'. cbn [uprops set_rcodes]. unfold a2. rewrite uprops_apply_props. reflexivity. }
+    unfold frame_obs. cbn [af_body].
+    destruct k; try discriminate Hk; unfold snapshot, oN, oS, getN, getS; rewrite E1, E2, E3, oprops_pairs; reflexivity.
+Qed.
+
+(* ------------------------------------------------------------------ *)
+(* UNSUBSCRIBE *)
+Lemma table_unsubscribe : table_ok 10 [] false NoSub = true.
+Proof. vm_compute. reflexivity. Qed.
+
+Theorem accept_unsubscribe pid ps fs :
+  pid < 65536 -> sprops_ok 10 ps -> len (e_props_raw ps) < 268435456 ->
+  Forall (fun f => len f < 65536) fs ->
+  accepts {| af_type := 10; af_flags := 2; af_body := BUnsubscribe pid ps fs |}.
+Proof.
+  intros Hpid Hps HR Hfs.
+  set (fresh := setf (M F_fixed) (VN (ctor_fixed KUnsubscribe)) zero_pkt).
+  pose proof (sprops_prop_ok _ [] false NoSub ps table_unsubscribe Hps) as Hok.
+  pose proof (sprops_keyed _ ps Hps) as Hdup.
+  set (a1 := setf (M F_packetID) (canon U16 (VN pid)) fresh).
+  set (FB := concat (map e_str fs)).
+  assert (EFB : FB = concat (map enc_bin fs)).
+  { unfold FB. clear -Hfs. induction Hfs as [|f l Hf _ IH]; [reflexivity|]. cbn [map concat].
+    rewrite (e_str_enc_bin f Hf), IH. reflexivity. }
+  set (body := e_u16 pid ++ e_props ps ++ FB).
+  destruct (dget_at (M F_packetID) U16 (VN pid) fresh body 0 (e_props ps ++ FB) 0) as [D1 H1];
+    try discriminate; try exact I; try assumption.
+  { apply at_pos_0. }
+  fold a1 in D1.
+  destruct (dgetany_spec_at [] false NoSub ps a1 body (0 + length (encode U16 (VN pid))) FB 1)
+    as [st [D2 H2]]; try assumption; try reflexivity; try discriminate.
+  set (a2 := apply_props [] false NoSub ps a1) in *.
+  rewrite EFB in H2.
+  pose proof (dunsubfilters_at fs a2 body _ st Hfs H2) as D3.
+  assert (Huf : ufilters a2 = []).
+  { unfold a2. rewrite (proj_apply_props _ ufilters ufilters_setf); [reflexivity| | |]; intros;
+      try reflexivity. apply append_ups_other. }
+  rewrite Huf in D3. cbn [app] in D3.
+  set (p' := set_ufilters a2 fs) in *.
+  apply (accepts_intro _ KUnsubscribe fresh p'); cbn [af_type af_flags af_body e_body].
+  - reflexivity.
+  - fold FB body. assert (Hne : body <> []) by (unfold body, e_u16; cbn [app]; discriminate).
+    destruct body as [|b0 body0] eqn:Eb; [congruence|]. rewrite <- Eb in *.
+    eapply unmarshal_of_run. cbn [dec_of]. unfold dec_unsubscribe.
+    rewrite (run_dec_cons _ _ _ _ D1), (run_dec_cons _ _ _ _ D2), (run_dec_cons _ _ _ _ D3). reflexivity.
+  - reflexivity.
+  - assert (E1 : getf (M F_packetID) p' = VN pid).
+    { unfold p'. change (getf (M F_packetID) (set_ufilters a2 fs)) with (getf (M F_packetID) a2).
+      unfold a2. rewrite apply_props_getf_other; [reflexivity|]. intros id r0 w0 Hl. discriminate Hl. }
+    assert (E3 : uprops p' = pairs ps).
+    { unfold p'. cbn [uprops set_ufilters]. unfold a2. rewrite uprops_apply_props. reflexivity. }
+    unfold frame_obs, snapshot, oN, getN. cbn [af_body]. rewrite E1, E3, oprops_pairs. reflexivity.
+Qed.
+
+(* ------------------------------------------------------------------ *)
+(* SUBSCRIBE *)
+Lemma table_subscribe : table_ok 8 [] false SubOpt = true.
+Proof. vm_compute. reflexivity. Qed.
+
+Lemma getp11_small ps n : Forall (prop_ok [] false SubOpt) ps -> getp 11 ps = Some (VVar n) -> n < 268435456.
+Proof.
+  induction ps as [|ap l IH]; intros Hok Hg; [discriminate|].
+  pose proof (Forall_inv Hok) as Hap. pose proof (Forall_inv_tail Hok) as Hoks.
+  cbn [getp] in Hg. destruct (ap_id ap =? 11) eqn:E; [|apply IH; assumption].
+  injection Hg as Hv. unfold prop_ok in Hap. rewrite Hv, E in Hap. destruct Hap as [_ [n' [En Hn]]].
+  injection En as <-. lia.
+Qed.
+
+Theorem accept_subscribe pid ps fs :
+  pid < 65536 -> sprops_ok 8 ps -> len (e_props_raw ps) < 268435456 ->
+  Forall filter_ok fs ->
+  accepts {| af_type := 8; af_flags := 2; af_body := BSubscribe pid ps fs |}.
+Proof.
+  intros Hpid Hps HR Hfs.
+  set (fresh := setf (M F_fixed) (VN (ctor_fixed KSubscribe)) zero_pkt).
+  pose proof (sprops_prop_ok _ [] false SubOpt ps table_subscribe Hps) as Hok.
+  pose proof (sprops_keyed _ ps Hps) as Hdup.
+  pose proof (sprops_ids11 ps Hps) as Hdup11.
+  set (a1 := setf (M F_packetID) (canon U16 (VN pid)) fresh).
+  set (FB := concat (map (fun f => e_str (fst f) ++ e_u8 (snd f)) fs)).
+  assert (EFB : FB = concat (map enc_filter fs)).
+  { unfold FB. clear -Hfs. induction Hfs as [|f l [Hf _] _ IH]; [reflexivity|]. cbn [map concat].
+    unfold enc_filter at 1. rewrite (e_str_enc_bin _ Hf), IH. reflexivity. }
+  set (body := e_u16 pid ++ e_props ps ++ FB).
+  destruct (dget_at (M F_packetID) U16 (VN pid) fresh body 0 (e_props ps ++ FB) 0) as [D1 H1];
+    try discriminate; try exact I; try assumption.
+  { apply at_pos_0. }
+  fold a1 in D1.
+  destruct (dgetany_spec_at [] false SubOpt ps a1 body (0 + length (encode U16 (VN pid))) FB 1)
+    as [st [D2 H2]]; try assumption; try reflexivity; try discriminate.
+  set (a2 := apply_props [] false SubOpt ps a1) in *.
+  rewrite EFB in H2.
+  pose proof (dfilters_at fs a2 body _ st Hfs H2) as D3.
+  assert (Hf2 : filters a2 = []).
+  { unfold a2. rewrite (proj_apply_props _ filters filters_setf); [reflexivity| | |]; intros;
+      try reflexivity. apply append_ups_other. }
+  rewrite Hf2 in D3. cbn [app] in D3.
+  set (p' := set_filters a2 fs) in *.
+  apply (accepts_intro _ KSubscribe fresh p'); cbn [af_type af_flags af_body e_body].
+  - reflexivity.
+  - fold FB body. assert (Hne : body <> []) by (unfold body, e_u16; cbn [app]; discriminate).
+    destruct body as [|b0 body0] eqn:Eb; [congruence|]. rewrite <- Eb in *.
+    eapply unmarshal_of_run. cbn [dec_of]. unfold dec_subscribe.
+    rewrite (run_dec_cons _ _ _ _ D1), (run_dec_cons _ _ _ _ D2), (run_dec_cons _ _ _ _ D3). reflexivity.
+  - reflexivity.
+  - assert (E1 : getf (M F_packetID) p' = VN pid).
+    { unfold p'. change (getf (M F_packetID) (set_filters a2 fs)) with (getf (M F_packetID) a2).
+      unfold a2. rewrite apply_props_getf_other; [reflexivity|]. intros id r0 w0 Hl. discriminate Hl. }
+    assert (E3 : uprops p' = pairs ps).
+    { unfold p'. cbn [uprops set_filters]. unfold a2. rewrite uprops_apply_props. reflexivity. }
+    assert (E4 : subid p' = match getp 11 ps with Some (VVar n) => Some n | _ => None end).
+    { unfold p'. cbn [subid set_filters]. unfold a2. rewrite (subid_apply_props [] false ps a1 Hok Hdup11). reflexivity. }
+    unfold frame_obs, snapshot, oN, getN. cbn [af_body]. rewrite E1, E3, E4, oprops_pairs.
+    assert (E5 : subid_int (match getp 11 ps with Some (VVar n) => Some n | _ => None end) =
+                 match getp 11 ps with Some (VVar n) => Z.of_N n | _ => (-1)%Z end).
+    { destruct (getp 11 ps) as [[]|] eqn:Eg; try reflexivity.
+      pose proof (getp11_small ps n Hok Eg) as Hn. unfold subid_int.
+      rewrite (proj2 (N.ltb_lt _ _)) by lia. reflexivity. }
+    rewrite E5. reflexivity.
+Qed.
+
+(* ------------------------------------------------------------------ *)
+(* PUBLISH *)
+Lemma table_publish : table_ok 3 publish_map false AddSub = true.
+Proof. vm_compute. reflexivity. Qed.
+
+Lemma publish_flag_bits fl : fl < 16 -> (fl / 2) mod 4 <> 3 ->
+  has (48 + fl) DUP = N.testbit fl 3 /\ has (48 + fl) RETAIN = N.testbit fl 0
+  /\ qos_of_fixed (48 + fl) = (fl / 2) mod 4
+  /\ ((qos_of_fixed (48 + fl) =? 1) || (qos_of_fixed (48 + fl) =? 2)) = negb ((fl / 2) mod 4 =? 0)
+  /\ 48 <= 48 + fl < 64.
+Proof.
+  intros Hfl Hq.
+  assert (H : forallb (fun fl => negb (fl <? 16) || ((fl / 2) mod 4 =? 3) ||
+     (Bool.eqb (has (48 + fl) DUP) (N.testbit fl 3) && Bool.eqb (has (48 + fl) RETAIN) (N.testbit fl 0)
+      && (qos_of_fixed (48 + fl) =? (fl / 2) mod 4)
+      && Bool.eqb ((qos_of_fixed (48 + fl) =? 1) || (qos_of_fixed (48 + fl) =? 2)) (negb ((fl / 2) mod 4 =? 0))))
+     all_N256 = true) by (vm_compute; reflexivity).
+  pose proof (forall_N256 _ H fl ltac:(lia)) as H1. cbv beta in H1.
+  rewrite (proj2 (N.ltb_lt _ _) Hfl), (proj2 (N.eqb_neq _ _) Hq) in H1. cbn [negb orb] in H1.
+  apply andb_prop in H1 as [H1 H4]. apply andb_prop in H1 as [H1 H3]. apply andb_prop in H1 as [H1 H2].
+  repeat split; try lia; apply Bool.eqb_prop; assumption.
+Qed.
+
+Lemma publish_map_lookup_other r :
+  (forall e, In e publish_map -> eref e <> r) ->
+  forall id r0 w0, lookup_prop publish_map id = Some (r0, w0) -> r0 <> r.
+Proof. intros H id r0 w0 Hl. apply lookup_in_map in Hl. exact (H _ Hl). Qed.
+
+Theorem accept_publish fl topic pid ps payload :
+  fl < 16 -> (fl / 2) mod 4 <> 3 -> len topic < 65536 ->
+  match pid with Some i => i < 65536 /\ (fl / 2) mod 4 <> 0 | None => (fl / 2) mod 4 = 0 end ->
+  sprops_ok 3 ps -> len (e_props_raw ps) < 268435456 ->
+  accepts {| af_type := 3; af_flags := fl; af_body := BPublish topic pid ps payload |}.
+Proof.
+  intros Hfl Hq Htopic Hpid Hps HR.
+  destruct (publish_flag_bits fl Hfl Hq) as [Bdup [Bret [Bqos [Bc Brange]]]].
+  set (fx := 48 + fl) in *.
+  set (fresh := setf (M F_fixed) (VN fx) zero_pkt).
+  assert (Hfresh : fresh_pkt (b2n (n2b (3 * 16 + fl))) = (KPublish, fresh)) by (apply fresh_publish; exact Brange).
+  pose proof (sprops_prop_ok _ publish_map false AddSub ps table_publish Hps) as Hok.
+  pose proof (sprops_keyed _ ps Hps) as Hdup.
+  assert (Hnd : nodup_refs publish_map = true) by apply publish_map_ok.
+  set (a1 := setf (M F_topicName) (canon Bin (VS topic)) fresh).
+  set (c := eval_cond CQoS12 a1 no_env).
+  assert (Ec : c = negb ((fl / 2) mod 4 =? 0)) by exact Bc.
+  set (pidv := match pid with Some i => i | None => 0 end).
+  set (PID := match pid with Some i => e_u16 i | None => [] end).
+  assert (EPID : PID = if c then encode U16 (VN pidv) else []).
+  { unfold PID, pidv. rewrite Ec. destruct pid as [i|].
+    - destruct Hpid as [_ Hq0]. rewrite (proj2 (N.eqb_neq _ _) Hq0). reflexivity.
+    - rewrite Hpid. reflexivity. }
+  assert (Hpidv : valid_val U16 (VN pidv)).
+  { unfold pidv. cbn [valid_val valN]. destruct pid as [i|]; [destruct Hpid; assumption|lia]. }
+  set (body := enc_bin topic ++ PID ++ e_props ps ++ payload).
+  destruct (dget_at (M F_topicName) Bin (VS topic) fresh body 0 (PID ++ e_props ps ++ payload) 0) as [D1 H1];
+    try discriminate; try exact I; try assumption.
+  { intros _. right. reflexivity. }
+  { apply at_pos_0. }
+  fold a1 in D1.
+  destruct (dif_pid_at (VN pidv) a1 body (0 + length (encode Bin (VS topic))) (e_props ps ++ payload) 1 Hpidv)
+    as [st2 [D2 H2]].
+  { fold c. rewrite <- EPID. exact H1. }
+  fold c in D2, H2. rewrite <- EPID in D2, H2.
+  set (a2 := if c then setf (M F_packetID) (canon U16 (VN pidv)) a1 else a1) in *.
+  destruct (dgetany_spec_at publish_map false AddSub ps a2 body (0 + length (encode Bin (VS topic)) + length PID)
+              payload st2) as [st3 [D3 H3]]; try assumption; try reflexivity; try discriminate.
+  { intros ap _ _ r w Hl _. apply lookup_in_map in Hl. unfold publish_map in Hl. cbn [In] in Hl.
+    unfold a2. repeat (destruct Hl as [Hl|Hl]; [injection Hl as _ <- _; destruct c; reflexivity|]). contradiction. }
+  set (a3 := apply_props publish_map false AddSub ps a2) in *.
+  destruct (dif_payload_at (VS payload) a3 body _ st3 H3) as [st4 D4]. cbn [valS] in D4.
+  set (p' := match payload with [] => a3 | _ => setf (M F_payload) (VS payload) a3 end) in *.
+  apply (accepts_intro _ KPublish fresh p'); cbn [af_type af_flags af_body e_body].
+  - exact Hfresh.
+  - rewrite (e_str_enc_bin topic Htopic). fold PID body.
+    assert (Hne : body <> []) by (unfold body, enc_bin, enc_u16; cbn [app]; discriminate).
+    destruct body as [|b0 body0] eqn:Eb; [congruence|]. rewrite <- Eb in *.
+    eapply unmarshal_of_run. cbn [dec_of]. unfold dec_publish.
+    rewrite (run_dec_cons _ _ _ _ D1), (run_dec_cons _ _ _ _ D2), (run_dec_cons _ _ _ _ D3),
+            (run_dec_cons _ _ _ _ D4). reflexivity.
+  - reflexivity.
+  - (* values *)
+    assert (Hother : forall r, fref_eqb r (M F_payload) = false -> getf r p' = getf r a3).
+    { intros r Hr. unfold p'. destruct payload; [reflexivity|apply getf_setf_other; exact Hr]. }
+    assert (Hnotmap : forall r, (forall e, In e publish_map -> eref e <> r) -> getf r a3 = getf r a2).
+    { intros r Hr. unfold a3. apply apply_props_getf_other. apply publish_map_lookup_other. exact Hr. }
+    assert (Nm : forall f, In f [F_fixed; F_topicName; F_packetID; F_payload] ->
+                 forall e, In e publish_map -> eref e <> M f).
+    { intros f Hf e He. unfold publish_map in He. cbn [In] in Hf, He.
+      repeat (destruct Hf as [<-|Hf]; [repeat (destruct He as [<-|He]; [discriminate|]); contradiction|]).
+      contradiction. }
+    assert (Efx : getf (M F_fixed) p' = VN fx).
+    { rewrite Hother by reflexivity. rewrite Hnotmap by (apply Nm; cbn; tauto). unfold a2. destruct c; reflexivity. }
+    assert (Etopic : getf (M F_topicName) p' = VS topic).
+    { rewrite Hother by reflexivity. rewrite Hnotmap by (apply Nm; cbn; tauto). unfold a2. destruct c; reflexivity. }
+    assert (Epid : valN (getf (M F_packetID) p') = pidv).
+    { rewrite Hother by reflexivity. rewrite Hnotmap by (apply Nm; cbn; tauto). unfold a2.
+      destruct c eqn:Ecv; [reflexivity|].
+      unfold pidv. destruct pid as [i|]; [|reflexivity]. destruct Hpid as [_ Hq0].
+      rewrite (proj2 (N.eqb_neq _ _) Hq0) in Ec. discriminate Ec. }
+    assert (Epl : valS (getf (M F_payload) p') = payload).
+    { unfold p'. destruct payload; [|rewrite getf_setf_same; reflexivity].
+      rewrite Hnotmap by (apply Nm; cbn; tauto). unfold a2. destruct c; reflexivity. }
+    assert (Eu : uprops p' = pairs ps).
+    { assert (E : uprops a3 = pairs ps) by (unfold a3; rewrite uprops_apply_props; unfold a2; destruct c; reflexivity).
+      unfold p'. destruct payload; [exact E|rewrite uprops_setf; exact E]. }
+    assert (Es : subids p' = vars11 ps).
+    { assert (E : subids a3 = vars11 ps) by (unfold a3; rewrite (subids_apply_props _ _ _ _ Hok); unfold a2; destruct c; reflexivity).
+      unfold p'. destruct payload; [exact E|rewrite subids_setf; exact E]. }
+    assert (Hz2 : forall e, In e publish_map -> getf (eref e) a2 = VN 0).
+    { intros e He. unfold publish_map in He. cbn [In] in He. unfold a2.
+      repeat (destruct He as [<-|He]; [destruct c; reflexivity|]). contradiction. }
+    unfold snapshot, snap_publish, frame_obs. cbn [af_body af_flags]. unfold oN, oB, oS, getN, getB, getS.
+    rewrite Efx, Etopic, Epid, Epl, Eu, Es, oprops_pairs, pvars_vars11. cbn [valN valS].
+    rewrite Bdup, Bret, Bqos.
+    rewrite !Hother by reflexivity. unfold a3.
+    rewrite (obs_bool publish_map false AddSub ps a2 Hnd Hok Hdup 1 (M F_payloadFormat)) by (reflexivity || discriminate || (unfold a2; destruct c; reflexivity)).
+    rewrite (obs_num publish_map false AddSub ps a2 Hnd Hok Hdup 2 (M F_messageExpiryInterval) U32) by (reflexivity || discriminate || exact I || (unfold a2; destruct c; reflexivity)).
+    rewrite (obs_num publish_map false AddSub ps a2 Hnd Hok Hdup 35 (M F_topicAlias) U16) by (reflexivity || discriminate || exact I || (unfold a2; destruct c; reflexivity)).
+    rewrite (obs_str publish_map false AddSub ps a2 Hnd Hok Hdup 8 (M F_responseTopic)) by (reflexivity || discriminate || (unfold a2; destruct c; reflexivity)).
+    rewrite (obs_str publish_map false AddSub ps a2 Hnd Hok Hdup 9 (M F_correlationData)) by (reflexivity || discriminate || (unfold a2; destruct c; reflexivity)).
+    rewrite (obs_str publish_map false AddSub ps a2 Hnd Hok Hdup 3 (M F_contentType)) by (reflexivity || discriminate || (unfold a2; destruct c; reflexivity)).
+    unfold pidv. reflexivity.
+Qed.
